@@ -989,11 +989,11 @@ pub fn run(case: &str, ctx: &mut Ctx) -> String {
         }
         Some(kind @ ("pool" | "race")) if w.len() == 5 => {
             // Watchdog: no step of a script can legitimately take longer than a few seconds (the longest is
-            // the pool's own 5 s USE timeout). If a case does not finish in 45 s it is abandoned, logged to
+            // the pool's own 5 s USE timeout). If a case does not finish in 25 s it is abandoned, logged to
             // /verif/work/C20-hangs.log and run once more from scratch; only a second hang is reported.
             let race = kind == "race";
             for attempt in 0..2 {
-                let rt = if race {
+                let rt = if race && std::env::var_os("C20_RACE_CURRENT_THREAD").is_none() {
                     tokio::runtime::Builder::new_multi_thread().worker_threads(3).enable_all().build().unwrap()
                 } else {
                     tokio::runtime::Builder::new_current_thread().enable_all().build().unwrap()
@@ -1001,7 +1001,7 @@ pub fn run(case: &str, ctx: &mut Ctx) -> String {
                 let progress = Mutex::new(String::new());
                 let peek: Mutex<Option<Arc<Mutex<State>>>> = Mutex::new(None);
                 let mut local = Ctx::default();
-                let res = rt.block_on(async { tokio::time::timeout(Duration::from_secs(45), run_pool(&w, race, &progress, &peek, &mut local)).await });
+                let res = rt.block_on(async { tokio::time::timeout(Duration::from_secs(25), run_pool(&w, race, &progress, &peek, &mut local)).await });
                 rt.shutdown_timeout(Duration::from_secs(2));
                 ctx.oracle_failures.append(&mut local.oracle_failures);
                 match res {
@@ -1023,7 +1023,7 @@ pub fn run(case: &str, ctx: &mut Ctx) -> String {
                     }
                 }
             }
-            ctx.fail("the case did not finish within 45 s twice (see /verif/work/C20-hangs.log)");
+            ctx.fail("the case did not finish within 25 s twice (see /verif/work/C20-hangs.log)");
             "HANG".into()
         }
         _ => "bad-case".into(),
